@@ -124,7 +124,7 @@ def _table_shapes():
         n, last = _fmt_parts(es, L + (4 if rc else 0) + (26 if k else 0))
         out.append((nm, "w_insert(%d, %s, %s, %s, %d, %d, %d, %d)" % (es, _b(mp), _b(rc), _b(k), L, free, n, last), "U6", "bounded", tiers, n + 2,
                     "overwrite_chain insert: entry_size %d %s, rc=%s key=%s, value length %d, %d free slot(s)" % (es, "multipart" if mp else "fixed", rc, k, L, free)))
-    quick_ins = {(True, True, 16, 0), (True, True, 17, 1), (True, True, 55, 2), (False, False, 46, 0), (False, False, 47, 0)}
+    quick_ins = {(True, True, 16, 0), (True, True, 16, 1), (True, True, 17, 1), (True, True, 17, 2), (True, True, 55, 2), (False, False, 46, 0), (False, False, 47, 0)}
     for (rc, k, hi) in [(True, True, 92), (False, False, 122), (False, True, 96), (True, False, 118)]:
         hdr = (4 if rc else 0) + (26 if k else 0)
         bounds = sorted({0, 1, 46 - hdr, 47 - hdr, 84 - hdr, 85 - hdr, hi})
@@ -250,6 +250,9 @@ for n in ["u8d_set_plain", "u8d_set_rc", "u8d_set_preimage", "u8d_reference_rc",
 for n in ["u15_reindex_plan_need0", "u15_reindex_plan_need1", "u15_reindex_plan_need2", "u15_plan_new_need0", "u15_plan_new_need1", "u15_plan_new_need2",
           "u15_plan_existing_current", "u15_plan_existing_old"]:
     M_COLUMN.harnesses.append(H(n, "U15", kind="bounded", shape=n[4:], bound="at most 2 consecutive index growths per operation; callees stubbed by contract"))
+M_COLUMN.harnesses.append(H("u16_index_walk_visits_every_live_entry", "U16", kind="bounded",
+                            shape="iter_index_internal over one arbitrary 64-entry page (last chunk of a 16-bit index)",
+                            bound="one chunk, four arbitrary slots (0, 1, 37, 63), the rest empty; entries in one size tier; IndexTable::entries and ValueTable::get_with_meta by contract"))
 M_COLUMN.harnesses.append(H("u11_child_count_representable", "U11"))
 for (n, d) in U11_WELL:
     M_COLUMN.harnesses.append(H("u11_well_c%d_d%d" % (n, d), "U11", kind="bounded", tiers=("thorough",) if n == 255 else ("quick", "thorough"),
@@ -338,7 +341,7 @@ PROPS["C09"] = {
     "does_not_cover": ["interleaving of reindex batches with commits and reads", "reindex.progress bookkeeping / drop_index ordering", "restart or crash during growth", "write_reindex_plan_locked retry loop and trigger_reindex (lock-guard code neither tool parses)"],
 }
 PROPS["C20"] = {
-    "kani_units": ["U1", "U4"],
+    "kani_units": ["U1", "U4", "U16"],
     "verus_units": [],
     "level": "proof",
     "technique": "Kani/CBMC loop-free contracts on the real recover_key_prefix / key splice, complete over all keys and index sizes",
@@ -350,7 +353,7 @@ PROPS["C20"] = {
     "does_not_cover": ["the `for _ in 0..rc` re-commit loop", "column selection, file copying, overwrite mode", "reference counts of the destination"],
 }
 PROPS["C06"] = {
-    "kani_units": ["U5", "U6", "U7", "U8d"],
+    "kani_units": ["U5", "U6", "U7", "U8d", "U14"],
     "verus_units": [],
     "level": "other",
     "technique": "Kani/CBMC contracts on the real entry-header codec and tier selection (complete) and on the chain writer/reader against the on-disk format specification (bounded shapes)",
@@ -450,6 +453,8 @@ UNIT_META = {
                         "Column::compress with NoCompression"]},
     "U15": {"functions": ["column::HashColumn::{write_reindex_plan_locked,write_plan_new,write_plan_existing}"],
             "assumes": ["IndexTable::{write_insert_plan,write_remove_plan}, HashColumn::{trigger_reindex,contains_partial_key_with_address}, Column::{write_new_value_plan,write_existing_value_plan} replaced by contracts (recorders); those contracts are the ones checked under U3/U13/U6/U8d, except trigger_reindex (assumed: same locks, fresh larger current index)"]},
+    "U16": {"functions": ["column::HashColumn::iter_index_internal"],
+            "assumes": ["IndexTable::entries returns the chunk's 64 entries (U1.transmute_is_le_word); ValueTable::get_with_meta returns the stored value/count/key tail (U6.R)"]},
     "U11": {"functions": ["column::{unpack_node_data,unpack_node_children,packed_node_size,packed_child_count}"], "assumes": []},
     "U14": {"functions": ["table::ValueTable::{clear_slot,next_free,read_next_free,complete_plan,write_remove_plan,clear_chain}"], "assumes": ["LogWriter ghost view"]},
     "index_search": {"functions": ["index::Entry::*", "index::Address::*", "index::IndexTable::{chunk_index,find_entry_base}"], "assumes": ["read_entry contract (external_body; proved by Kani U1.read_entry_is_le_word)"]},
